@@ -1111,7 +1111,7 @@ func genBindable(r *hx.Rand, m map[string]any) {
 		put("rate", hx.Pick(r, []any{0.25, 0, 3}))
 	}
 	if r.Chance(1, 4) {
-		put("tags", hx.Pick(r, []any{[]any{"a", "b", "c"}, []any{"z"}, []any{}}))
+		put("tags", hx.Pick(r, []any{[]any{"a", "b", "c"}, []any{"z"}, []any{}, "x,y", ""}))
 	}
 	if r.Chance(1, 4) {
 		put("labels", hx.Pick(r, []any{map[string]any{"x": "1", "y": "2"}, map[string]any{"x": "9"}, map[string]any{}}))
@@ -1323,7 +1323,7 @@ func genCase(r *hx.Rand, tier string) caseT {
 		}
 		c.Keys = append(c.Keys, k)
 	}
-	c.Keys = append(c.Keys, "missing", "", "server.port.x", "a.b")
+	c.Keys = append(c.Keys, "missing", "", "server.port.x", "a.b", "server.", ".server", "server..port", "tags.0", "Server.Port ")
 	return c
 }
 
